@@ -83,10 +83,33 @@ func (c *LimitParallelRequests) acquireEndpoint(ctx context.Context, endpointLim
 	verifhook.Yield("limit.acquire.beforeSelect", endpointLimitKey)
 	select {
 	case <-ctx.Done():
-		c.releaseEndpoint(endpointLimitKey)
+		c.cancelEndpoint(endpointLimitKey, reqChan)
 		return ctx.Err()
 	case <-reqChan:
 		return nil
+	}
+}
+
+// cancelEndpoint withdraws a canceled request. If the request is still waiting in the queue it is
+// just removed from it - it owns no slot, so none must be released. Otherwise the slot has already
+// been handed over to it and is given back.
+func (c *LimitParallelRequests) cancelEndpoint(endpointLimitKey uint64, reqChan chan struct{}) {
+	granted := true
+	_, _ = c.endpointQueues.ReplaceWithFunc(endpointLimitKey, func(oldValue *endpointQueue, oldLoaded bool) (newValue *endpointQueue, doDelete bool) {
+		if !oldLoaded {
+			return nil, true
+		}
+		for i, ch := range oldValue.orderedRequest {
+			if ch == reqChan {
+				oldValue.orderedRequest = append(oldValue.orderedRequest[:i], oldValue.orderedRequest[i+1:]...)
+				granted = false
+				break
+			}
+		}
+		return oldValue, false
+	})
+	if granted {
+		c.releaseEndpoint(endpointLimitKey)
 	}
 }
 
